@@ -105,6 +105,38 @@ theorem copyLoop_cases (cfg : Cfg) (onDest bounded : Bool) (B oD oM : Nat) (hoM 
       (fun h => by have := hsl h; omega)
     exact ⟨_, st', hx, CopyAll.of_full hC1 hC2 hp⟩
 
+/-- **a source without a terminator in the cells the loop gets to read** (the first `min g k` cells non-NUL, `slen`
+reaches as far): the loop ends at the bumper (`g < k`: ESOVRLP) or runs out of room (ESNOSPC); dest cleared -/
+theorem copyLoop_noterm (cfg : Cfg) (onDest bounded : Bool) (B oD oM : Nat) (hoM : 0 < oM)
+    (k d s g slen : Nat) (st : St)
+    (hall : ∀ a, st.mapped a = true ∧ st.rd a = true)
+    (hrw : RW st oD oM) (hinv : oD ≤ d ∧ d + k = oD + oM)
+    (hgeo : (onDest = true ∧ s = d + g ∧ B = s) ∨ (onDest = false ∧ B = s + g ∧ B ≤ d))
+    (hnz : ∀ j, j < g → j < k → st.data (s+j) ≠ 0)
+    (hsl : bounded = true → (g < k → g ≤ slen) ∧ (k ≤ g → k ≤ slen)) :
+    ∃ code st', exec (copyLoop cfg onDest bounded B oD oM k d s slen) st = .ok (code, st') ∧
+      code = (if g < k then ESOVRLP else ESNOSPC) ∧ ClearedPost cfg oD oM code st st' := by
+  have hclean : ∀ i j, i < j → j < g → s + j ≠ d + i := by
+    intro i j h1 h2
+    rcases hgeo with ⟨_, h, _⟩ | ⟨_, h, h'⟩ <;> omega
+  have hbne : ∀ j, j < g → (if onDest then d + j else s + j) ≠ B := by
+    intro j hj
+    rcases hgeo with ⟨h0, h, h'⟩ | ⟨h0, h, h'⟩
+    · rw [h0]; simp only [if_true]; omega
+    · rw [h0]; simp only [Bool.false_eq_true, if_false]; omega
+  have hbeq : (if onDest then d + g else s + g) = B := by
+    rcases hgeo with ⟨h0, h, h'⟩ | ⟨h0, h, h'⟩
+    · rw [h0]; simp only [if_true]; omega
+    · rw [h0]; simp only [Bool.false_eq_true, if_false]; omega
+  by_cases hA : g < k
+  · obtain ⟨st', hx, hp⟩ := copySteps_hit cfg onDest bounded B oD oM hoM k d s g slen st hall hrw hinv hA
+      (fun j hj => hnz j hj (by omega)) hclean hbne hbeq (fun h => (hsl h).1 hA)
+    exact ⟨_, st', hx, by rw [if_pos hA], hp⟩
+  · obtain ⟨st', hx, hp⟩ := copySteps_full cfg onDest bounded B oD oM hoM k d s slen st hall hrw hinv
+      (fun j hj => hnz j (by omega) hj) (fun i j h1 h2 => hclean i j h1 (by omega)) (fun j hj => hbne j (by omega))
+      (fun h => (hsl h).2 (by omega))
+    exact ⟨_, st', hx, by rw [if_neg hA], hp⟩
+
 /-! ## the copies: `strcpy_s strncpy_s wcscpy_s wcsncpy_s` behind their entry checks -/
 
 def cpyBody (cfg : Cfg) (bounded : Bool) (dest dmax src slen : Nat) : Prog Nat :=
@@ -129,6 +161,23 @@ theorem cpyBody_cases (cfg : Cfg) (bounded : Bool) (dest dmax src m g slen : Nat
   · rw [if_neg (by omega)]
     exact copyLoop_cases cfg false bounded dest dest dmax hpos dmax dest src m g slen st hall hrw ⟨Nat.le_refl _, rfl⟩
       (Or.inr ⟨rfl, he, Nat.le_refl _⟩) hnz hfin
+
+/-- the unbounded copies on a source without a terminator in the first `min g dmax` cells -/
+theorem cpyBody_noterm (cfg : Cfg) (dest dmax src g : Nat) (st : St)
+    (hall : ∀ a, st.mapped a = true ∧ st.rd a = true)
+    (hpos : 0 < dmax) (hrw : RW st dest dmax)
+    (hg : (dest < src ∧ src = dest + g) ∨ (src ≤ dest ∧ dest = src + g))
+    (hnz : ∀ j, j < g → j < dmax → st.data (src+j) ≠ 0) :
+    ∃ code st', exec (cpyBody cfg false dest dmax src 0) st = .ok (code, st') ∧
+      code = (if g < dmax then ESOVRLP else ESNOSPC) ∧ ClearedPost cfg dest dmax code st st' := by
+  unfold cpyBody
+  rcases hg with ⟨hlt, he⟩ | ⟨hlt, he⟩
+  · rw [if_pos hlt]
+    exact copyLoop_noterm cfg true false src dest dmax hpos dmax dest src g 0 st hall hrw ⟨Nat.le_refl _, rfl⟩
+      (Or.inl ⟨rfl, he, rfl⟩) hnz (fun h => absurd h (by decide))
+  · rw [if_neg (by omega)]
+    exact copyLoop_noterm cfg false false dest dest dmax hpos dmax dest src g 0 st hall hrw ⟨Nat.le_refl _, rfl⟩
+      (Or.inr ⟨rfl, he, Nat.le_refl _⟩) hnz (fun h => absurd h (by decide))
 
 theorem strcpyG_eq_body (max : Nat) (cfg : Cfg) (dest dmax src : Nat) (destbos : Bos)
     (hd : dest ≠ 0) (hs : src ≠ 0) (hne : dest ≠ src) (hpos : 0 < dmax) (hle : dmax ≤ max)
